@@ -33,7 +33,8 @@ fn one(vc: &VolCfg, cycles: usize, nfiles: usize, in_subdir: bool, stats_early: 
     let (img, _) = make_volume(vc).map_err(|e| ("setup".to_string(), e))?;
     let dev = MonDev::new(img);
     dev.set_logging(false, false);
-    dev.set_budget(Some(400_000_000));
+    // cumulative over the whole run (hundreds of thousands of calls), so generous: it only guards against non-termination
+    dev.set_budget(Some(60_000_000_000));
     let cs = usize::from(vc.bps) * usize::from(vc.spc);
     let fs: Fs = fatfs::FileSystem::new(dev.handle(), fatfs::FsOptions::new().time_provider(Clock::new(9))).map_err(|e| ("mount".to_string(), format!("{:?}", e)))?;
     let root = fs.root_dir();
